@@ -91,19 +91,28 @@ func cutFamily() []decInput {
 		if in.origin != "enum-valid" {
 			continue
 		}
-		for _, st := range mut.All(mut.Parse(in.data)) {
-			if st.Typ != 1 {
-				continue
+		for _, b := range cutTails(in.data) {
+			out = append(out, decInput{typ: in.typ, data: b, origin: "cut-tail"})
+		}
+	}
+	return out
+}
+
+// cutTails: every structure of a TTLV message ended early at every child boundary, enclosing lengths corrected
+func cutTails(data []byte) [][]byte {
+	var out [][]byte
+	for _, st := range mut.All(mut.Parse(data)) {
+		if st.Typ != 1 {
+			continue
+		}
+		for j := range st.Kids {
+			from, to := st.Kids[j].Off, st.Off+8+int(st.Len)
+			b := append(append([]byte(nil), data[:from]...), data[to:]...)
+			for p := st; p != nil; p = p.Parent {
+				l := binary.BigEndian.Uint32(b[p.Off+4:])
+				binary.BigEndian.PutUint32(b[p.Off+4:], l-uint32(to-from))
 			}
-			for j := range st.Kids {
-				from, to := st.Kids[j].Off, st.Off+8+int(st.Len)
-				b := append(append([]byte(nil), in.data[:from]...), in.data[to:]...)
-				for p := st; p != nil; p = p.Parent {
-					l := binary.BigEndian.Uint32(b[p.Off+4:])
-					binary.BigEndian.PutUint32(b[p.Off+4:], l-uint32(to-from))
-				}
-				out = append(out, decInput{typ: in.typ, data: b, origin: "cut-tail"})
-			}
+			out = append(out, b)
 		}
 	}
 	return out
